@@ -23,7 +23,7 @@ use succinctly::jq::{
 use succinctly::json::JsonIndex;
 use succinctly::yaml::{
     format_float_yq_yaml, format_float_yq_yaml_nested, resolve_plain, resolve_tagged,
-    stream_yaml_sequence, YamlCursor, YamlIndex, YamlValue,
+    stream_yaml_sequence, ResolvedScalar, YamlCursor, YamlIndex, YamlValue,
 };
 
 use super::{FrontMatterMode, InputFormat, OutputFormat, YqCommand};
@@ -157,7 +157,12 @@ impl OutputConfig {
         // Compact output when indent is 0 (yq-compatible)
         let compact = args.indent == 0;
 
-        let indent_str = if compact {
+        // YAML has no compact form: block nesting *is* indentation, so a
+        // zero-width step would flatten `a: {b: 1}` into two sibling keys.
+        // `-I0` falls through to the same 2-space clamp as `-I1`, matching
+        // the fast-path streamer's `yaml_indent_spaces` below.
+        let yaml_output = args.output_format == OutputFormat::Yaml;
+        let indent_str = if compact && !yaml_output {
             String::new()
         } else if args.tab {
             "\t".to_string()
@@ -181,11 +186,7 @@ impl OutputConfig {
             // `output_value` actually takes, or `-o=auto -I=1` would get
             // JSON content clamped as if it were YAML.
             let width = args.indent as usize;
-            let width = if args.output_format == OutputFormat::Yaml {
-                width.max(2)
-            } else {
-                width
-            };
+            let width = if yaml_output { width.max(2) } else { width };
             " ".repeat(width)
         };
 
@@ -2007,7 +2008,7 @@ fn emit_yaml_value_at_depth(
             // and yq preserves a document literal's exact text.
             literal.to_string()
         }
-        OwnedValue::String(s) => yaml_quote_string_with_style(s, comments.style()),
+        OwnedValue::String(s) => yaml_quote_string_with_style(s, comments.style(), in_flow),
         OwnedValue::Array(arr) => {
             if arr.is_empty() {
                 "[]".to_string()
@@ -2149,7 +2150,7 @@ fn emit_yaml_value_at_depth(
                 let entries: Vec<_> = obj
                     .iter()
                     .map(|(k, v)| {
-                        let key = yaml_quote_key(k);
+                        let key = yaml_quote_key(k, true);
                         let field_comments = comments.field(k);
                         let val = emit_yaml_value_at_depth(
                             v,
@@ -2178,7 +2179,7 @@ fn emit_yaml_value_at_depth(
                 let items: Vec<_> = entries
                     .iter()
                     .map(|(k, v)| {
-                        let key = yaml_quote_key(k);
+                        let key = yaml_quote_key(k, false);
                         let field_comments = comments.field(k);
                         let comment_suffix = trailing_comment_suffix(field_comments);
                         let val_indent = format!("{indent}{}", config.indent_str);
@@ -2258,7 +2259,10 @@ fn emit_yaml_value_at_depth(
 }
 
 /// Quote a YAML string if needed.
-fn yaml_quote_string(s: &str) -> String {
+///
+/// `in_flow` is whether the scalar is written inside a `[...]`/`{...}`
+/// collection, where `,`/`[`/`]`/`{`/`}` are indicators rather than content.
+fn yaml_quote_string(s: &str, in_flow: bool) -> String {
     // Check if string needs quoting
     if s.is_empty() {
         return "''".to_string();
@@ -2274,35 +2278,51 @@ fn yaml_quote_string(s: &str) -> String {
         || lower == ".inf"
         || lower == "-.inf"
         || s.parse::<f64>().is_ok()
-        || s.starts_with('*')
-        || s.starts_with('&')
-        || s.starts_with('!')
-        || s.starts_with('%')
-        || s.starts_with('@')
-        || s.starts_with('`')
-        || s.starts_with('|')
-        || s.starts_with('>')
-        || s.starts_with('[')
-        || s.starts_with('{')
-        || s.starts_with('"')
-        || s.starts_with('\'')
-        || s.starts_with('#')
-        || s.starts_with('-') && (s.len() == 1 || s.chars().nth(1) == Some(' '))
-        || s.starts_with('?') && (s.len() == 1 || s.chars().nth(1) == Some(' '))
-        || s.starts_with(':') && (s.len() == 1 || s.chars().nth(1) == Some(' '))
-        || s.contains(": ")
-        || s.contains(" #")
-        || s.contains('\n')
-        || s.contains('\r')
-        || s.contains('\t')
-        || s.ends_with(':')
-        || s.ends_with(' ');
+        // Whatever this crate's own reader resolves a plain scalar to - the
+        // spellings above and `f64`'s grammar miss `0x1F`, `0o17`, `+.inf`, ...
+        || !matches!(resolve_plain(s), ResolvedScalar::Str)
+        || yaml_plain_is_unsafe(s, in_flow);
 
     if needs_quoting {
         yaml_double_quote_escaped(s)
     } else {
         s.to_string()
     }
+}
+
+/// Whether `s`, written as a plain scalar, would read back as anything other
+/// than the same text - the structural half of [`yaml_quote_string`]'s test,
+/// shared with [`yaml_quote_key`] (a key's scalar *type* is irrelevant, every
+/// key is a string, but its text still has to survive).
+///
+/// Errs on the side of quoting: a quoted scalar always reads back intact.
+fn yaml_plain_is_unsafe(s: &str, in_flow: bool) -> bool {
+    // An indicator in first position (`c-indicator`), where `-`/`?`/`:` only
+    // count when they stand alone or before white space (tabs are caught by
+    // the control-character test below).
+    s.starts_with([
+        '*', '&', '!', '%', '@', '`', '|', '>', '[', ']', '{', '}', ',', '"', '\'', '#',
+    ]) || s.starts_with(['-', '?', ':']) && (s.len() == 1 || s.as_bytes()[1] == b' ')
+        // A document marker, were the scalar to land at column 0.
+        || s.starts_with("---")
+        || s.starts_with("...")
+        || s.contains(": ")
+        || s.contains(" #")
+        || s.ends_with(':')
+        // Leading/trailing white space is separation, not content.
+        || s.starts_with(' ')
+        || s.ends_with(' ')
+        // Line breaks, tabs and every other control character (C0, DEL, C1 -
+        // NEL included), plus the Unicode line/paragraph separators and the
+        // byte order mark: written escaped, never raw.
+        || s.chars().any(yaml_char_needs_escape)
+        || in_flow && s.contains([',', '[', ']', '{', '}'])
+}
+
+/// Whether `c` is written as an escape sequence rather than as itself, which
+/// takes a double-quoted scalar.
+fn yaml_char_needs_escape(c: char) -> bool {
+    c.is_control() || matches!(c, '\u{2028}' | '\u{2029}' | '\u{FEFF}')
 }
 
 /// Double-quote `s`, escaping as needed — the actual quoting mechanics
@@ -2322,6 +2342,9 @@ fn yaml_double_quote_escaped(s: &str) -> String {
             '\t' => result.push_str("\\t"),
             c if c.is_ascii_control() => {
                 result.push_str(&format!("\\x{:02x}", c as u32));
+            }
+            c if yaml_char_needs_escape(c) => {
+                result.push_str(&format!("\\u{:04x}", c as u32));
             }
             _ => result.push(c),
         }
@@ -2352,7 +2375,7 @@ fn yaml_single_quote_escaped(s: &str) -> String {
 /// single-quoted YAML scalar has no escape syntax for control characters
 /// (no `\n`, `\t`, ...), unlike double-quoted.
 fn can_single_quote(s: &str) -> bool {
-    !s.chars().any(|c| c.is_ascii_control())
+    !s.chars().any(yaml_char_needs_escape)
 }
 
 /// Quote a YAML string the way [`yaml_quote_string`] does, except honoring
@@ -2369,7 +2392,7 @@ fn can_single_quote(s: &str) -> bool {
 /// are block-scalar styles this DOM writer doesn't reproduce; see
 /// `CommentTree`'s own doc comment) falls back to the plain heuristic
 /// unchanged.
-fn yaml_quote_string_with_style(s: &str, style: &str) -> String {
+fn yaml_quote_string_with_style(s: &str, style: &str, in_flow: bool) -> String {
     // No empty-string special case needed here (unlike `yaml_quote_string`
     // below): every arm already renders `""` correctly on its own -
     // `yaml_double_quote_escaped`/`yaml_single_quote_escaped` produce
@@ -2381,12 +2404,12 @@ fn yaml_quote_string_with_style(s: &str, style: &str) -> String {
     match style {
         "single" if can_single_quote(s) => yaml_single_quote_escaped(s),
         "double" => yaml_double_quote_escaped(s),
-        _ => yaml_quote_string(s),
+        _ => yaml_quote_string(s, in_flow),
     }
 }
 
 /// Quote a YAML key if needed.
-fn yaml_quote_key(s: &str) -> String {
+fn yaml_quote_key(s: &str, in_flow: bool) -> String {
     // Keys have similar rules but are a bit more permissive
     if s.is_empty() {
         return "''".to_string();
@@ -2394,34 +2417,14 @@ fn yaml_quote_key(s: &str) -> String {
 
     let needs_quoting = s.contains(':')
         || s.contains('#')
-        || s.contains('\n')
-        || s.contains('\r')
         || s.starts_with('-')
         || s.starts_with('?')
-        || s.starts_with('[')
-        || s.starts_with('{')
-        || s.starts_with('"')
-        || s.starts_with('\'')
-        || s.starts_with('*')
-        || s.starts_with('&')
-        || s.starts_with('!')
-        || s.ends_with(' ');
+        // Plain `<<` is the merge key, not a key spelled `<<`.
+        || s == "<<"
+        || yaml_plain_is_unsafe(s, in_flow);
 
     if needs_quoting {
-        let mut result = String::with_capacity(s.len() + 2);
-        result.push('"');
-        for c in s.chars() {
-            match c {
-                '"' => result.push_str("\\\""),
-                '\\' => result.push_str("\\\\"),
-                '\n' => result.push_str("\\n"),
-                '\r' => result.push_str("\\r"),
-                '\t' => result.push_str("\\t"),
-                _ => result.push(c),
-            }
-        }
-        result.push('"');
-        result
+        yaml_double_quote_escaped(s)
     } else {
         s.to_string()
     }
@@ -5008,6 +5011,63 @@ mod tests {
             result.is_err(),
             "emit_yaml_value should panic at MAX_VALUE_TREE_DEPTH"
         );
+    }
+
+    /// Whatever string `emit_yaml_value` writes - as a value or as a key, in
+    /// block or in flow style - this crate's own reader must hand back
+    /// unchanged: same text, still a string.
+    #[test]
+    fn emit_yaml_value_strings_and_keys_read_back_unchanged() {
+        let config = OutputConfig {
+            output_format: OutputFormat::Yaml,
+            compact: false,
+            raw_output: false,
+            join_output: false,
+            nul_output: false,
+            ascii_output: false,
+            sort_keys: false,
+            no_doc: false,
+            indent_str: "  ".to_string(),
+            use_color: false,
+            json_sourced_floats: false,
+        };
+
+        // In order: plain spellings the reader resolves to a non-string; white
+        // space at either end; characters written escaped; indicators;
+        // indicators only inside a flow collection; nothing special at all.
+        for s in [
+            "0x1F", "0o17", ".5", "+1", "1e3", ".inf", "+.inf", "-.INF", ".NaN", "~", "Null",
+            "TRUE", " lead", "trail ", " ", "\tlead", "trail\t", "\u{1}", "a\u{7f}b", "\u{85}",
+            "a\u{9f}", "\u{2028}", "\u{2029}", "\u{feff}", "a\nb", "\n", "a\r\nb\n", ",a", "]",
+            "}x", "- a", "-", "? a", ": a", "a: b", "a #b", "a:", "#a", "&a", "*a", "!a", "|",
+            ">-", "@a", "`a", "%a", "'a", "\"a", "[a", "{a", "---", "--- a", "...", "a, b", "a,b",
+            "a]", "a[b", "a}b", "a{", "a", "a b", "-a", "a-b", "a,", "x?y", "1_000", "0b1", "yes",
+        ] {
+            for in_flow in [false, true] {
+                let string = || OwnedValue::String(s.to_string());
+                let mut keyed = IndexMap::new();
+                keyed.insert(s.to_string(), string());
+                let mut doc = IndexMap::new();
+                doc.insert(
+                    "v".to_string(),
+                    OwnedValue::Array(vec![string(), OwnedValue::Object(keyed)]),
+                );
+                let value = OwnedValue::Object(doc);
+
+                let yaml = emit_yaml_value(&value, &CommentTree::empty(), &config, "", in_flow);
+                let index = YamlIndex::build(yaml.as_bytes())
+                    .unwrap_or_else(|e| panic!("{s:?} (in_flow: {in_flow}) wrote {yaml:?}: {e}"));
+                let YamlValue::Sequence(docs) = index.root(yaml.as_bytes()).value() else {
+                    panic!("expected a document sequence");
+                };
+                let (doc, _) = docs.uncons_cursor().expect("one document");
+                assert_eq!(
+                    yaml_to_owned_value(doc).unwrap(),
+                    value,
+                    "{s:?} (in_flow: {in_flow}) wrote {yaml:?}"
+                );
+            }
+        }
     }
 
     /// `{"k":{"k":...{}...}}`, `depth` levels of `"k"` nesting, terminating
